@@ -5,6 +5,7 @@
    it a leaf item); a dictionary is its items() list; the priority compression is a function
    argument [compress] (its own properties are C13/C14); the built-in solver is not modelled. *)
 Require Import Puan.Base Puan.Bridge Puan.BridgeFacts.
+Require Import Puan.Plog Puan.Sem Puan.Link Puan.Link15.
 Open Scope string_scope.
 
 (* ---- what the solver receives.  The solver is consulted exactly once, on the polyhedron it
@@ -270,3 +271,51 @@ Proof.
   repeat split; vm_compute; reflexivity.
 Qed.
 Print Assumptions C15_nonvacuous.
+
+
+(* C15_exact with its soundness hypothesis DISCHARGED by C02 (Link.v / Link15.v): for a model m of
+   the proposition layer in solver-safe form (no sub-proposition pre-fixed, signs +-1), take the
+   columns and dense rows that Plog.to_ge_polyhedron hands out for it (`bpoly`, `bcols`; distinct
+   column ids, every occurrence below the root is a column with its own bounds, the root is not a
+   column, no by-id leaf references — all true of validated models).  Whatever solve() reports
+   from ANY exact solver run on that polyhedron is an optimal point whose reported values make the
+   model evaluate to 1 (unreported helper columns are irrelevant: eval reads leaf ids only), or
+   the empty dictionary when the polyhedron has no integer point. *)
+Theorem C15_exact_puan :
+  forall (gens : ident -> bool) (m : prop),
+    is_var m = false -> plain_shape m -> solver_safe m = true ->
+    NoDup (map fst (columns true m)) -> cols_cover m (columns true m) ->
+    ~ In (id_of m) (map fst (columns true m)) -> leaves_apart m ->
+  forall (solver : solver_t), is_argmax solver ->
+  forall (objs : list dict) (incl : bool) (rs : list (dict * option Z * Z)),
+    solve solver (bpoly gens m) (bcols gens m) objs incl = Ok rs ->
+    Forall2 (fun o r =>
+      (exists x, feasible (bpoly gens m) x /\
+                 (forall y, feasible (bpoly gens m) y -> score (bcols gens m) o y <= score (bcols gens m) o x) /\
+                 fst (fst r) = decode_solve (bcols gens m) incl (Some x) /\
+                 eval (fun i => match dlookup (IdS i) (fst (fst r)) with Some z => z | None => 0 end) m = 1)
+      \/ (fst (fst r) = [] /\ forall y, ~ feasible (bpoly gens m) y)) objs rs.
+Proof. intros gens m H1 H2 H3 H4 H5 H6 H7 solver Hex. exact (solve_exact_puan gens m H1 H2 H3 H4 H5 H6 H7 solver Hex). Qed.
+Print Assumptions C15_exact_puan.
+
+(* Non-vacuity of its hypotheses: S = Any(B = All(a,b), c) with puan's own columns [B; a; b; c] *)
+Open Scope string_scope.
+Definition c15_s : prop := Node (mk KAny) "S" false 0 1 1 1 [Node (mk KAll) "B" false 0 1 1 2 [Var "a" 0 1; Var "b" 0 1]; Var "c" 0 1].
+Example C15_exact_puan_nonvacuous :
+  is_var c15_s = false /\ plain_shape c15_s /\ solver_safe c15_s = true /\
+  NoDup (map fst (columns true c15_s)) /\ cols_cover c15_s (columns true c15_s) /\
+  ~ In (id_of c15_s) (map fst (columns true c15_s)) /\ leaves_apart c15_s /\
+  mat (bpoly (fun _ => false) c15_s) = [[1; 1; 0; 0; 1]; [0; -2; 1; 1; 0]] /\
+  solve bf_solver (bpoly (fun _ => false) c15_s) (bcols (fun _ => false) c15_s) [[(IdS "a", -1); (IdS "b", -1); (IdS "c", -3)]] false
+    = Ok [([(IdS "B", 1); (IdS "a", 1); (IdS "b", 1); (IdS "c", 0)], None, 0)].
+Proof.
+  assert (Hc : columns true c15_s = [("B",(0,1)); ("a",(0,1)); ("b",(0,1)); ("c",(0,1))]) by (vm_compute; reflexivity).
+  rewrite Hc. cbn [map fst].
+  split; [reflexivity|]. split; [cbn; intuition|]. split; [reflexivity|].
+  split. { repeat constructor; cbn; intuition discriminate. }
+  split. { intros c n Hcin Hn. cbn [children c15_s] in Hcin. destruct Hcin as [<-|[<-|[]]]; cbn in Hn; intuition; subst; cbn; auto 10. }
+  split. { cbn. intuition discriminate. }
+  split. { intros a b Ha Hb Hva Hvb. cbn in Ha, Hb. intuition; subst; cbn in *; try discriminate; intro; discriminate. }
+  split; vm_compute; reflexivity.
+Qed.
+Print Assumptions C15_exact_puan_nonvacuous.
